@@ -79,7 +79,10 @@ def observe(c):
                 out.append(["unit"])
         except Exception as ex:
             out.append(["raise", "%s: %s" % (type(ex).__name__, str(ex)[:80])])
-    return {"outcomes": out}
+    res = {"outcomes": out}
+    if len(set(o for _, o, _ in c["history"])) > 1:
+        res["_retire"] = True       # two objects share the native simulation (F13): dangling pointers may have been used - the
+    return res                      # next case gets a fresh process (a heap corrupted here would crash a later, innocent case)
 
 
 # ------------------------------------------------------------------------------ histories
@@ -157,15 +160,21 @@ def g_call(k):
                          "get_output": "LGetOutput", "finalize": "LFinalize"}[call], o)
 
 
+def _gf(v):
+    # a non-finite number (read through a dangling pointer after undefined behaviour, or a real defect) is carried as a value no
+    # model outcome equals: it is judged like any other wrong number, and matches only after the model's own `OUB`
+    return g_float(v if math.isfinite(v) else 1.0e300)
+
+
 def g_outcome(o):
     if o[0] == "unit":
         return "OUnit"
     if o[0] == "bool":
         return "(OBool %s)" % g_bool(o[1])
     if o[0] == "num":
-        return "(ONum %s)" % g_float(o[1])
+        return "(ONum %s)" % _gf(o[1])
     if o[0] == "out":
-        return "(OOut %s %s)" % (g_list([g_float(v) for v in o[1]]), g_nat(o[2]))
+        return "(OOut %s %s)" % (g_list([_gf(v) for v in o[1]]), g_nat(o[2]))
     return "OIllegal"        # a Python exception: never what the specification returns on a respecting history
 
 
@@ -269,6 +278,8 @@ def observe_term(c):
         it2 += 1
         if not eng.iterate():
             break
+    for _ in range(2):
+        eng.iterate()            # as the first time: a run cut at the iteration cap goes on by these two calls
     out2 = eng.get_output()
     second = [float(v) for v in out2.t.value] + [float(v) for v in out2.data.value]
     eng.finalize()
